@@ -53,4 +53,64 @@ PROPS = {
         "modelled": ["bytes::BytesMut/Bytes buffer semantics (split_to, advance, put_*) as list operations", "Rust std String::from_utf8 acceptance (validUtf8)"],
         "assumptions": ["max packet size passed to the readers = 2^30; v5 client write with max_size None; two trailing bytes c0 00 follow every produced frame in the decoded stream"],
     },
+    "C01": {
+        "runs": [{"vh": "router", "driver": "router C01", "args": ["--profile", "c01"], "shards_thorough": 16, "selftest": True}],
+        "trusted_base": ["Router model Model/Router/{Types,Step}.lean: one step = one Router::events(id, ev) or one Router::consume(); link-side pushes/drains are separate steps; Rust panic sites explicit (Fail.panic); HashMap iteration orders that are observable and the Random strategy's draw are oracle inputs recorded by hook H3 and checked for admissibility", "Monitors Model/Router/Monitors.lean (executable spec evaluated on the implementation's observable trace, using the model's ghost history, which is trustworthy while model and implementation agree on every output)"],
+        "modelled": ['meters, alerts, tracing, print_status, tenant prefix, message expiry (generators keep expiry out of range)', 'thread interleavings inside one Router::consume() (link-side drain between two router-side lock acquisitions) are not generated: ops are atomic', "flume channel capacity of the router's event channel, parking_lot mutexes"],
+        "assumptions": ["router driven single-threadedly through hooks H1-H3 (guard --cfg rumqtt_verif): Router::verif_events / verif_consume, link-side buffers via rumqttd::verif::new_buffers"],
+    },
+    "C03": {
+        "runs": [{"vh": "router", "driver": "router C03", "args": ["--profile", "c03"], "shards_thorough": 16, "selftest": False}],
+        "trusted_base": ["Router model Model/Router/{Types,Step}.lean: one step = one Router::events(id, ev) or one Router::consume(); link-side pushes/drains are separate steps; Rust panic sites explicit (Fail.panic); HashMap iteration orders that are observable and the Random strategy's draw are oracle inputs recorded by hook H3 and checked for admissibility", "Monitors Model/Router/Monitors.lean (executable spec evaluated on the implementation's observable trace, using the model's ghost history, which is trustworthy while model and implementation agree on every output)"],
+        "modelled": ['meters, alerts, tracing, print_status, tenant prefix, message expiry (generators keep expiry out of range)', 'thread interleavings inside one Router::consume() (link-side drain between two router-side lock acquisitions) are not generated: ops are atomic', "flume channel capacity of the router's event channel, parking_lot mutexes"],
+        "assumptions": ["router driven single-threadedly through hooks H1-H3 (guard --cfg rumqtt_verif): Router::verif_events / verif_consume, link-side buffers via rumqttd::verif::new_buffers"],
+    },
+    "C06": {
+        "runs": [{"vh": "router", "driver": "router C06", "args": ["--profile", "c06"], "shards_thorough": 16, "selftest": False}],
+        "trusted_base": ["Router model Model/Router/{Types,Step}.lean: one step = one Router::events(id, ev) or one Router::consume(); link-side pushes/drains are separate steps; Rust panic sites explicit (Fail.panic); HashMap iteration orders that are observable and the Random strategy's draw are oracle inputs recorded by hook H3 and checked for admissibility", "Monitors Model/Router/Monitors.lean (executable spec evaluated on the implementation's observable trace, using the model's ghost history, which is trustworthy while model and implementation agree on every output)"],
+        "modelled": ['meters, alerts, tracing, print_status, tenant prefix, message expiry (generators keep expiry out of range)', 'thread interleavings inside one Router::consume() (link-side drain between two router-side lock acquisitions) are not generated: ops are atomic', "flume channel capacity of the router's event channel, parking_lot mutexes"],
+        "assumptions": ["router driven single-threadedly through hooks H1-H3 (guard --cfg rumqtt_verif): Router::verif_events / verif_consume, link-side buffers via rumqttd::verif::new_buffers"],
+    },
+    "C08": {
+        "runs": [{"vh": "router", "driver": "router C08", "args": ["--profile", "c08"], "shards_thorough": 16, "selftest": False}],
+        "trusted_base": ["Router model Model/Router/{Types,Step}.lean: one step = one Router::events(id, ev) or one Router::consume(); link-side pushes/drains are separate steps; Rust panic sites explicit (Fail.panic); HashMap iteration orders that are observable and the Random strategy's draw are oracle inputs recorded by hook H3 and checked for admissibility", "Monitors Model/Router/Monitors.lean (executable spec evaluated on the implementation's observable trace, using the model's ghost history, which is trustworthy while model and implementation agree on every output)"],
+        "modelled": ['meters, alerts, tracing, print_status, tenant prefix, message expiry (generators keep expiry out of range)', 'thread interleavings inside one Router::consume() (link-side drain between two router-side lock acquisitions) are not generated: ops are atomic', "flume channel capacity of the router's event channel, parking_lot mutexes"],
+        "assumptions": ["router driven single-threadedly through hooks H1-H3 (guard --cfg rumqtt_verif): Router::verif_events / verif_consume, link-side buffers via rumqttd::verif::new_buffers"],
+    },
+    "C09": {
+        "runs": [{"vh": "router", "driver": "router C09", "args": ["--profile", "c09"], "shards_thorough": 16, "selftest": False}],
+        "trusted_base": ["Router model Model/Router/{Types,Step}.lean: one step = one Router::events(id, ev) or one Router::consume(); link-side pushes/drains are separate steps; Rust panic sites explicit (Fail.panic); HashMap iteration orders that are observable and the Random strategy's draw are oracle inputs recorded by hook H3 and checked for admissibility", "Monitors Model/Router/Monitors.lean (executable spec evaluated on the implementation's observable trace, using the model's ghost history, which is trustworthy while model and implementation agree on every output)"],
+        "modelled": ['meters, alerts, tracing, print_status, tenant prefix, message expiry (generators keep expiry out of range)', 'thread interleavings inside one Router::consume() (link-side drain between two router-side lock acquisitions) are not generated: ops are atomic', "flume channel capacity of the router's event channel, parking_lot mutexes"],
+        "assumptions": ["router driven single-threadedly through hooks H1-H3 (guard --cfg rumqtt_verif): Router::verif_events / verif_consume, link-side buffers via rumqttd::verif::new_buffers"],
+    },
+    "C14": {
+        "runs": [{"vh": "router", "driver": "router C14", "args": ["--profile", "c14"], "shards_thorough": 16, "selftest": False}],
+        "trusted_base": ["Router model Model/Router/{Types,Step}.lean: one step = one Router::events(id, ev) or one Router::consume(); link-side pushes/drains are separate steps; Rust panic sites explicit (Fail.panic); HashMap iteration orders that are observable and the Random strategy's draw are oracle inputs recorded by hook H3 and checked for admissibility", "Monitors Model/Router/Monitors.lean (executable spec evaluated on the implementation's observable trace, using the model's ghost history, which is trustworthy while model and implementation agree on every output)"],
+        "modelled": ['meters, alerts, tracing, print_status, tenant prefix, message expiry (generators keep expiry out of range)', 'thread interleavings inside one Router::consume() (link-side drain between two router-side lock acquisitions) are not generated: ops are atomic', "flume channel capacity of the router's event channel, parking_lot mutexes"],
+        "assumptions": ["router driven single-threadedly through hooks H1-H3 (guard --cfg rumqtt_verif): Router::verif_events / verif_consume, link-side buffers via rumqttd::verif::new_buffers"],
+    },
+    "C15": {
+        "runs": [{"vh": "router", "driver": "router C15", "args": ["--profile", "c15"], "shards_thorough": 16, "selftest": False}],
+        "trusted_base": ["Router model Model/Router/{Types,Step}.lean: one step = one Router::events(id, ev) or one Router::consume(); link-side pushes/drains are separate steps; Rust panic sites explicit (Fail.panic); HashMap iteration orders that are observable and the Random strategy's draw are oracle inputs recorded by hook H3 and checked for admissibility", "Monitors Model/Router/Monitors.lean (executable spec evaluated on the implementation's observable trace, using the model's ghost history, which is trustworthy while model and implementation agree on every output)"],
+        "modelled": ['meters, alerts, tracing, print_status, tenant prefix, message expiry (generators keep expiry out of range)', 'thread interleavings inside one Router::consume() (link-side drain between two router-side lock acquisitions) are not generated: ops are atomic', "flume channel capacity of the router's event channel, parking_lot mutexes"],
+        "assumptions": ["router driven single-threadedly through hooks H1-H3 (guard --cfg rumqtt_verif): Router::verif_events / verif_consume, link-side buffers via rumqttd::verif::new_buffers"],
+    },
+    "C16": {
+        "runs": [{"vh": "router", "driver": "router C16", "args": ["--profile", "c16"], "shards_thorough": 16, "selftest": False}],
+        "trusted_base": ["Router model Model/Router/{Types,Step}.lean: one step = one Router::events(id, ev) or one Router::consume(); link-side pushes/drains are separate steps; Rust panic sites explicit (Fail.panic); HashMap iteration orders that are observable and the Random strategy's draw are oracle inputs recorded by hook H3 and checked for admissibility", "Monitors Model/Router/Monitors.lean (executable spec evaluated on the implementation's observable trace, using the model's ghost history, which is trustworthy while model and implementation agree on every output)"],
+        "modelled": ['meters, alerts, tracing, print_status, tenant prefix, message expiry (generators keep expiry out of range)', 'thread interleavings inside one Router::consume() (link-side drain between two router-side lock acquisitions) are not generated: ops are atomic', "flume channel capacity of the router's event channel, parking_lot mutexes"],
+        "assumptions": ["router driven single-threadedly through hooks H1-H3 (guard --cfg rumqtt_verif): Router::verif_events / verif_consume, link-side buffers via rumqttd::verif::new_buffers"],
+    },
+    "C17": {
+        "runs": [{"vh": "router", "driver": "router C17", "args": ["--profile", "c17"], "shards_thorough": 16, "selftest": False}],
+        "trusted_base": ["Router model Model/Router/{Types,Step}.lean: one step = one Router::events(id, ev) or one Router::consume(); link-side pushes/drains are separate steps; Rust panic sites explicit (Fail.panic); HashMap iteration orders that are observable and the Random strategy's draw are oracle inputs recorded by hook H3 and checked for admissibility", "Monitors Model/Router/Monitors.lean (executable spec evaluated on the implementation's observable trace, using the model's ghost history, which is trustworthy while model and implementation agree on every output)"],
+        "modelled": ['meters, alerts, tracing, print_status, tenant prefix, message expiry (generators keep expiry out of range)', 'thread interleavings inside one Router::consume() (link-side drain between two router-side lock acquisitions) are not generated: ops are atomic', "flume channel capacity of the router's event channel, parking_lot mutexes"],
+        "assumptions": ["router driven single-threadedly through hooks H1-H3 (guard --cfg rumqtt_verif): Router::verif_events / verif_consume, link-side buffers via rumqttd::verif::new_buffers"],
+    },
+    "C19": {
+        "runs": [{"vh": "router", "driver": "router C19", "args": ["--profile", "c19"], "shards_thorough": 16, "selftest": False}],
+        "trusted_base": ["Router model Model/Router/{Types,Step}.lean: one step = one Router::events(id, ev) or one Router::consume(); link-side pushes/drains are separate steps; Rust panic sites explicit (Fail.panic); HashMap iteration orders that are observable and the Random strategy's draw are oracle inputs recorded by hook H3 and checked for admissibility", "Monitors Model/Router/Monitors.lean (executable spec evaluated on the implementation's observable trace, using the model's ghost history, which is trustworthy while model and implementation agree on every output)"],
+        "modelled": ['meters, alerts, tracing, print_status, tenant prefix, message expiry (generators keep expiry out of range)', 'thread interleavings inside one Router::consume() (link-side drain between two router-side lock acquisitions) are not generated: ops are atomic', "flume channel capacity of the router's event channel, parking_lot mutexes"],
+        "assumptions": ["router driven single-threadedly through hooks H1-H3 (guard --cfg rumqtt_verif): Router::verif_events / verif_consume, link-side buffers via rumqttd::verif::new_buffers"],
+    },
 }
